@@ -151,7 +151,8 @@ const_value = st.one_of(
 def array_spec(draw, idx, fam=None):
     n = draw(st.sampled_from([0, 0, 1, 2, 3, 4, 5, 7, 9, 12]))
     via = draw(st.sampled_from(['ctor', 'ctor', 'ctor', 'add', 'add', 'gpa',
-                                'gpa', 'plain', 'plain', 'family']))
+                                'gpa', 'plain', 'plain', 'family', 'family',
+                                'family']))
     if via == 'family':
         # every shard has a helper of its own, so that each one is met in
         # every run
@@ -186,6 +187,12 @@ def array_spec(draw, idx, fam=None):
         tags = [0] * n
     elif tagmode == 'ghost':
         tags = [draw(st.integers(1, 2)) for _ in range(n)]
+    if via == 'rigid' and n > 0 and draw(st.booleans()):
+        # body ids together with non-Local tags: the helper must keep each
+        # id on its particle through the alignment
+        tags = [draw(st.integers(0, 2)) for _ in range(n)]
+        if not any(tags):
+            tags[0] = 1
     consts = {}
     for c in draw(st.lists(st.sampled_from(CPOOL), max_size=2, unique=True)):
         consts[c] = draw(const_value)
